@@ -6,7 +6,7 @@ from harness.main import Engine
 from harness.props import c02
 
 PID = 'C03'
-LEVEL = 'translation_validation'
+LEVEL = 'proof'
 RULE = ('parser/stmts: random statement lists (0-10 statements: bindings with scopes of depth 0-3 and module-qualified '
         'selectors, macro definitions, imports in all four forms, includes, blocks) rendered to text in two '
         'independently drawn layouts (blank lines, comment lines, trailing comments, odd spacing around = and :, '
